@@ -41,7 +41,11 @@ CORPUS = [
     batch(RD('s_v20', 'i1', 'm_ok', A), RD('s_v20', 'i1', 'm_ok', A)),
     batch(RD('s_v20', 'i1', 'm_unk', A), RD('s_v20', 's_empty', 'm_one', A)),
     single(RD('s_v20', 's_1', 'm_ok', 'o_a')),
+    # the same method raises ANOTHER code through the same error class as in entry 5 (handlers are looked up per raised code)
+    (single(RD('s_v20', 'i0', 'm_perr', A)), {'code': 'c_2001', 'message': 's_b', 'data': A}),
+    batch(RD('s_v20', A, 'm_ok', A), RD('s_v20', A, 'm_perr', A)),          # nothing but notifications
 ]
+DEFPERR = {'code': 'i1', 'message': 's_a', 'data': A}
 EHKEYS = ['c_m32601', 'c_m32602', 'c_m32000', 'c_2001', 'i1']
 
 
@@ -50,8 +54,9 @@ def make_cfg(kind):
     by['c_m32601'] = ['replace']
     by['i1'] = ['identity']
     by['c_m32000'] = ['identity', 'identity']
+    by['c_2001'] = ['identity', 'replace']
     return {'kind': kind, 'maxBatch': 'n3', 'mws': ['pass', 'rewriteResp'], 'eh': {'gen': ['identity'], 'by': by},
-            'perr': {'code': 'i1', 'message': 's_a', 'data': A}, 'exc': 'ValueError',
+            'perr': dict(DEFPERR), 'exc': 'ValueError',
             'flavour': 'coro' if kind == 'async' else 'plain'}
 
 
@@ -69,6 +74,11 @@ def dispatch_one(d, cfg, log, idx):
     ev = []
     log.local.cur = ev
     text = CORPUS[idx - 1]
+    perr = DEFPERR
+    if isinstance(text, tuple):
+        text, perr = text
+    cfg = dict(cfg, perr=dict(perr))
+    dd.CUR.perr = cfg['perr']           # per thread: the error the method raises belongs to the request being dispatched
     try:
         ret = dd.call(d, cfg['kind'] == 'async', dd.render(text))
     except BaseException as e:  # noqa
@@ -76,7 +86,7 @@ def dispatch_one(d, cfg, log, idx):
     else:
         out, leak = dd.a_out(ret)
         ev.append({'ev': 'Return', 'out': out, 'leak': leak})
-    return {'scn': {'cfg': cfg, 'text': text}, 'ev': ev}
+    return {'scn': {'cfg': {k: v for k, v in cfg.items() if not k.startswith('_')}, 'text': text}, 'ev': ev}
 
 
 def run(scn, n):
@@ -84,6 +94,7 @@ def run(scn, n):
     if 'hist' in scn:
         cfg = make_cfg('async' if zlib.crc32(json.dumps(scn, sort_keys=True).encode()) % 2 else 'sync')    # by content, not by position
         log = Log()
+        cfg['_perrcls'] = (zlib.crc32(json.dumps(scn, sort_keys=True).encode()) // 2) % 3
         d = dd.build(cfg, log)
         for idx in scn['hist']:
             traces.append(dispatch_one(d, cfg, log, idx))
